@@ -40,9 +40,11 @@ def run(ctx):
     stats = {"cases": 0, "nontrivial": 0, "distinct": 0, "rejected": 0, "graphs": 0, "hang": 0, "crash": 0, "returned": 0, "cyclic": 0}
     lock = threading.Lock()
 
+    classes = {}
+
     def forests():
         runs = [("Bookmarks_quick.cfg", {})] if ctx.quick else [
-            ("Bookmarks_thorough.cfg", {}), ("Bookmarks_sim.cfg", dict(simulate="num=%d" % 5000, depth=40))]
+            ("Bookmarks_thorough.cfg", {}), ("Bookmarks_sim.cfg", dict(simulate="num=%d" % 20, depth=40))]
         for i, (cfg, kw) in enumerate(runs):
             cases = os.path.join(d, "bm-cases-%d.ndjson" % i)
             res = vlib.run_tlc("Bookmarks", cfg, workers=ncpu, timeout=1500, seed=ctx.seed, payloads={"CASE": cases}, **kw)
@@ -66,18 +68,12 @@ def run(ctx):
             with lock:
                 for k in ("cases", "nontrivial", "distinct", "rejected"):
                     stats[k] += summ[k]
-                seen = set()
                 for m in vlib.read_ndjson(out):
-                    key = "%s|%s" % (m["key"], vlib.digest(m["case"]["tree"]))
-                    if key in seen:
-                        continue
-                    seen.add(key)
-                    ctx.report(key, "%s (forest of %d bookmarks, first title %r)" % (
-                        m["what"], m["case"]["n"], _title(m["case"]["tree"][0]["title"])), m)
+                    classes.setdefault(m["key"], []).append(m)
 
     def graphs():
         runs = [("BookmarksRobust_quick.cfg", {})] if ctx.quick else [
-            ("BookmarksRobust_thorough.cfg", {}), ("BookmarksRobust_sim3.cfg", dict(simulate="num=%d" % 6000, depth=40))]
+            ("BookmarksRobust_thorough.cfg", {}), ("BookmarksRobust_sim3.cfg", dict(simulate="num=%d" % 1500, depth=40))]
         found = {}
         for i, (cfg, kw) in enumerate(runs):
             cases = os.path.join(d, "br-cases-%d.ndjson" % i)
@@ -113,7 +109,7 @@ def run(ctx):
                                 ev.sample({"graph": r["case"], "real": {"exporterr": r["exporterr"][-120:], "titles": r["titles"]}})
                             sampled = True
                     if r["outcome"] in ("hang", "crash"):
-                        key = "%s|%s" % (r["outcome"], r["where"])
+                        key = "%s|%s|%s" % (r["outcome"], r["where"].split(".")[0], r["op"])
                         found.setdefault(key, []).append(r)
                     elif len(set(r["titles"])) != len(r["titles"]):
                         found.setdefault("dup-items|%s" % vlib.digest(r["case"]), []).append(r)
@@ -138,9 +134,9 @@ def run(ctx):
                 opname = "ReadContext + pdfcpu.BookmarksForOutlineItem"
             with lock:
                 ctx.report(key, "%s: %s on outline graph n=%d rootTitle=%s ptr=%s (root First,Last; per item First,Last,Next,Prev; -1 absent, 0 root) "
-                           "- %s in %s; %d graphs of this run" % (
+                           "- %s in %s, stack (innermost first) %s; %d graphs of this run" % (
                                what, opname, r["case"]["n"], r["case"]["rt"],
-                               r["case"]["ptr"], r["detail"][:200], r["where"], len(rs)), r)
+                               r["case"]["ptr"], r["detail"][:200], r["where"], " < ".join(r.get("stack") or [])[:600], len(rs)), r)
 
     def guard(fn):
         def w():
@@ -158,6 +154,10 @@ def run(ctx):
             t.join()
         if errors:
             raise errors[0]
+        for key, ms in sorted(classes.items()):
+            m = ms[0]
+            ctx.report(key, "%s (forest of %d bookmarks, first title %r); %d forests of this class (stage|attribute|title unique or shared by several items)" % (
+                m["what"], m["case"]["n"], _title(m["case"]["tree"][0]["title"]), len(ms)), m)
         ev.cov(evaluations=stats["cases"] + stats["graphs"],
                distinct_nontrivial=stats["distinct"] + stats["cyclic"],
                traces_validated_against_impl=stats["cases"] + stats["graphs"],
